@@ -218,6 +218,37 @@ func genC11(seed uint64, tier string, prop string) Case {
 			c.Ops = append(c.Ops, op)
 		}
 	}
+	if prop == "C11" && !static && r.chance(1, 5) {
+		// removal burst: claims over everything that is expired start at the same instant as explicit deletes of
+		// exactly those records, so a delete can fall between a claim's selection and its removal of the record
+		var expired []int64
+		for _, op := range c.Ops {
+			if op.K == "rec" && op.A[1] < 0 {
+				expired = append(expired, op.A[0])
+			}
+		}
+		if len(expired) >= 2 {
+			var keep []Op
+			for _, op := range c.Ops {
+				if op.C == -1 {
+					keep = append(keep, op)
+				}
+			}
+			c.Ops = keep
+			for cl := 0; cl < 1+r.intn(2); cl++ {
+				if r.chance(2, 3) {
+					c.Ops = append(c.Ops, Op{C: cl, K: "shiftexp", A: []int64{0, []int64{0, 5, 3}[r.intn(3)]}})
+				} else {
+					c.Ops = append(c.Ops, Op{C: cl, K: "shiftmatch", A: []int64{0, 0, 2, int64(r.intn(2)), -1, -1, 1, 0, 0, 0}})
+				}
+			}
+			for cl := 2; cl < 3+r.intn(2); cl++ {
+				for j := 1 + r.intn(3); j > 0; j-- {
+					c.Ops = append(c.Ops, Op{C: cl, K: "del", A: []int64{0, expired[r.intn(len(expired))]}})
+				}
+			}
+		}
+	}
 	c.Sched = genSched(r)
 	if r.chance(1, 3) {
 		c.Sched.StallPPM = 2_000
